@@ -20,8 +20,8 @@ import (
 	"github.com/sourcegraph/zoekt/query"
 )
 
-// runs collectSender over the batches; promoted = some aggregate was not in score order (a novel
-// extension promotion took place before a truncation)
+// runs collectSender over the batches; promoted = ranking some intermediate aggregate involved a novel
+// extension promotion
 func vf22Collect(opts *zoekt.SearchOptions, batches [][]zoekt.FileMatch) (files []zoekt.FileMatch, promoted bool, panicked bool) {
 	defer func() {
 		if e := recover(); e != nil {
@@ -53,7 +53,7 @@ func vf22Collect(opts *zoekt.SearchOptions, batches [][]zoekt.FileMatch) (files 
 
 func vf22CollectKey(f vf22Fail, opts *zoekt.SearchOptions, promoted bool, nbatches int) string {
 	if strings.HasPrefix(f.key, "prefix:") && promoted && nbatches > 1 && opts.MaxMatchDisplayCount > 0 {
-		return "collect:incremental-truncation-after-novel-extension-promotion:match-limit"
+		return "collect:incremental-truncation-vs-novel-extension-promotion:match-limit"
 	}
 	return f.key
 }
@@ -131,6 +131,9 @@ func TestVerifC22Collect(t *testing.T) {
 				ranked = append(ranked, vf22CopyFiles(inputs[b])...)
 			}
 			index.SortFiles(ranked)
+			if !vf22SortedByScore(ranked) {
+				promoted = true // the final ranking itself contains a promotion
+			}
 			for _, f := range vf22OraclePrefix(ranked, files, opts, octx) {
 				rp := replay()
 				rp["got"] = vf22Describe(files, chunkMode)
@@ -199,10 +202,8 @@ func vf22GenShards(r *vfRand) []vf22Shard {
 	var out []vf22Shard
 	id := 0
 	for s := 0; s < ns; s++ {
+		// distinct priorities => distinct repo ranks => no score ties across shards (tie order is unspecified)
 		sh := vf22Shard{Repo: fmt.Sprintf("repo%d", s), Priority: 10 * (ns - s)}
-		if r.Chance(30) {
-			sh.Priority = 10
-		}
 		nd := 1 + r.Intn(5)
 		for d := 0; d < nd; d++ {
 			id++
@@ -337,6 +338,9 @@ func TestVerifC22E2E(t *testing.T) {
 				})
 				_ = ss.StreamSearch(ctxb, queries[qi].q, &base, rec)
 				_, promoted, _ = vf22Collect(&lim, batches)
+			}
+			if api != 2 && !vf22SortedByScore(ranked) {
+				promoted = true // the final ranking itself contains a promotion
 			}
 			for _, f := range fails {
 				key := "e2e:" + vf22CollectKey(f, &lim, promoted, len(shards))
